@@ -20,7 +20,7 @@ SubVerdict(ev) ==
        ELSE IF ev.pix = Crop(canon.pix, canon.w, ev.x, ev.y, ev.w, ev.h) THEN {} ELSE {V("P_SubImageIsCrop", cause, Key, info)}
 
 Verdict(ev) ==
-    IF ~canon.ok /\ ev.e \in {"Info", "Dev", "Sub", "View", "Small", "Conv", "Scan", "Any"} /\ ev.e # "Sub"
+    IF ~canon.ok /\ ev.e \in {"Info", "Dev", "Sub", "View", "Small", "Conv", "Scan", "Any", "Truth"} /\ ev.e # "Sub"
     THEN {}                 \* the canonical read itself failed (reported at the Fault)
     ELSE CASE ev.e = "Info"  -> IF ev.w = canon.w /\ ev.h = canon.h THEN {} ELSE {V("P_InfoMatches", "None", Key, [info |-> <<ev.w, ev.h>>, image |-> <<canon.w, canon.h>>])}
            [] ev.e = "Dev"   -> IF ev.w = canon.w /\ ev.h = canon.h /\ ev.pix = canon.pix THEN {} ELSE {V("P_DevicesAgree", "None", Key \o ":" \o ev.dev, <<ev.w, ev.h>>)}
@@ -34,6 +34,8 @@ Verdict(ev) ==
                                 ELSE {V("P_ScanlineAgrees", IF ev.threw /\ IsTiledTiff THEN "tiled-tiff-scanline-unsupported" ELSE "None", Key, [threw |-> ev.threw])}
            [] ev.e = "Any"   -> IF ~ev.threw /\ ev.w = canon.w /\ ev.h = canon.h /\ ev.pix = canon.pix THEN {} ELSE {V("P_AnyImageAgrees", "None", Key, [threw |-> ev.threw, index |-> ev.index])}
            [] ev.e = "Fault" -> {V("P_NoFault", IF file.fmt = "bmp" /\ file.variant \in {"rle4", "rle8"} THEN "bmp-rle-partial-read" ELSE "None", Key, ev.kind)}
+           \* (extension, not a clause of C13) a file produced by an independent encoder from known pixels decodes to those pixels
+           [] ev.e = "Truth" -> IF ev.pix = canon.pix THEN {} ELSE {V("X_DecodesAsEncoded", "None", Key, [image |-> <<canon.w, canon.h>>])}
            [] ev.e \in {"File", "Canon", "EndFile", "End"} -> {}
            [] OTHER -> {V("UnknownEvent", "None", ev.e, l)}
 
